@@ -95,7 +95,8 @@ func genStrictXML(r *Rng) string {
 		b.WriteString("<" + n)
 		used := map[string]bool{}
 		for i, k := 0, r.Intn(4); i < k; i++ {
-			a := r.Pick([]string{"id", "k", "data-x", "xml:lang", "A", "b-c"})
+			// (names that share a local name under different prefixes are different attributes: a plain parser reports both)
+			a := r.Pick([]string{"id", "k", "data-x", "xml:lang", "A", "b-c", "lang", "p:id", "q:id", "p:k"})
 			if used[a] {
 				continue
 			}
